@@ -219,6 +219,19 @@ CLAIMED["C10"] = (
     "method) is reported as KNOWN-FINDING when konst's value equals the hoisted-rev model's value exactly.",
     "DESIGN §5 C10, §6 F8")
 
+CLAIMED["C19"] = (
+    "TLA+ spec (OptRes.tla: each option::/result:: macro expansion as its match arms with a fallback-called flag "
+    "refines the std method; min/max tie rules and rebind component assignment as reference operators) "
+    "model-checked by TLC; every descriptor turned into programs in closure and function-path form that run the "
+    "real macro next to the std method",
+    "Exhaustive within bounds: 9 option:: + 9 result:: macros x both variants x payloads 0..2 x closure / path "
+    "forms (value and whether the fallback closure ran; the std method evaluated in the same program as guard), "
+    "option::flatten!, try_!/try_opt! vs `?`, every rebind pattern of arity 1..4 (thorough 1..5) with each position "
+    "a place / let / typed let / _ through try_rebind! and rebind_if_ok! (680 programs), and min!/max!/_by/_by_key "
+    "on all key pairs with distinguishable identities: 848 programs per quick run.",
+    "Trusted: TLC, rustc, the generator's closure library. Arity 6 rebinds are not generated.",
+    "DESIGN §5 C19")
+
 NOT_YET = {}
 
 def main():
